@@ -190,6 +190,10 @@ theorem nSeq_filterMap_handlingSeq (r : Nat) (st : List Frame) : nSeq r (st.filt
   simp [reqOf]
 @[simp] theorem reqOf_peer_req (x : Side) (r : Nat) : reqOf x.peer (x, .req r) = none := by simp [reqOf]
 
+/-- **obligation on the code** (measured by the constants generator on the live `Connection._dispatch`): a response
+whose payload cannot be decoded is still delivered to its waiter, as an error, instead of leaving `_dispatch` -/
+theorem decode_guarded : Gen.Proto.responseDecodeGuarded = true := by decide
+
 /-! ### the invariant -/
 
 structure Dir (x : Side) (rq rs : SideSt) (w : Wire) : Prop where
